@@ -92,10 +92,10 @@ func (m *Dense) Solve(a, b Matrix) error {
 // If A does not have full rank, a Condition error is returned. See the
 // documentation for Condition for more information.
 func (v *VecDense) SolveVec(a Matrix, b Vector) error {
-	if _, bc := b.Dims(); bc != 1 {
+	r, c := a.Dims()
+	if br, bc := b.Dims(); bc != 1 || br != r {
 		panic(ErrShape)
 	}
-	_, c := a.Dims()
 
 	// The Solve implementation is non-trivial, so rather than duplicate the code,
 	// instead recast the VecDenses as Dense and call the matrix code.
